@@ -43,7 +43,20 @@ def renamings(params, tier):
             if seen.get(kind, 0) < (1 if kind in ("id",) else 2):
                 pick.append(m)
                 seen[kind] = seen.get(kind, 0) + 1
+        if len(old) >= 3:
+            # the cyclic rotations and a chain through all parameters: every member of a container lands on another member
+            rot = {old[i]: old[(i + 1) % len(old)] for i in range(len(old))}
+            rot2 = {old[i]: old[(i - 1) % len(old)] for i in range(len(old))}
+            chain = {old[i]: (old[i + 1] if i + 1 < len(old) else "?n1") for i in range(len(old))}
+            for m in (rot, rot2, chain):
+                if m not in pick:
+                    pick.append(m)
         return pick
+    if len(old) >= 3:
+        # 60 injective maps for three parameters: the permutations of the old names, the chains, and a sample of the rest
+        perms = [m for m in out if set(m.values()) == set(old)]
+        chains = [m for m in out if set(m.values()) & set(old) and set(m.values()) != set(old)]
+        return perms + chains[:12] + [m for m in out if not set(m.values()) & set(old)][:2]
     return out
 
 
@@ -78,6 +91,11 @@ def programs(tier, seed):
           ["decrease", ["f", "?y"], ["f", "?x"]]]),
         (P2, ["and", ["r"]], ["and", ["p", "?x"], ["p", "?y"], ["when", ["r"], ["and", ["not", ["q", "?x", "?y"]], ["not", ["q", "?y", "?x"]]]],
                                ["increase", ["f", "?x"], "1"], ["increase", ["f", "?y"], "2"]]),
+        # three parameters of one type: pairwise (in)equalities, literals and fluents that a rotation maps onto each other
+        ("P5", ["and", ["p", "?x"], ["not", ["=", "?x", "?y"]], ["not", ["=", "?y", "?w"]], ["not", ["=", "?x", "?w"]]],
+         ["and", ["not", ["p", "?x"]], ["p", "?y"], ["increase", ["f", "?w"], ["f", "?x"]]]),
+        ("P5", ["and", ["or", ["=", "?x", "?y"], ["=", "?y", "?w"], ["q", "?x", "?w"]], [">=", ["+", ["f", "?x"], ["*", ["f", "?y"], "2"]], ["f", "?w"]]],
+         ["and", ["q", "?x", "?y"], ["q", "?y", "?w"], ["not", ["q", "?w", "?x"]]]),
         (P2, ["and", ["forall", ["?z", "-", "t1"], ["or", ["q", "?z", "?x"], ["q", "?z", "?y"]]]],
          ["and", ["forall", ["?z", "-", "t1"], ["when", ["and", ["q", "?x", "?z"], ["q", "?y", "?z"]], ["and", ["not", ["q", "?x", "?z"]]]]]]),
     ]
